@@ -146,6 +146,10 @@ def _observe_likelihood(case):
         one['after_partial'] = np.asarray(e2.get_value_c(database=db2, betas=None, prepare_ids=True), dtype=float).tolist()
         one['after_partial_empty'] = np.asarray(e2.get_value_c(database=db2, betas={}, prepare_ids=True), dtype=float).tolist()
         one['beta_values_after'] = dict(e2.get_beta_values())
+        # new initial values (free and fixed parameters) after evaluations with a dictionary
+        if case.get('reinit' + tag):
+            e2.change_init_values(dict(case['reinit' + tag]))
+            one['after_reinit'] = np.asarray(e2.get_value_c(database=db2, betas=None, prepare_ids=True), dtype=float).tolist()
         res[tag] = one
     return res
 
@@ -171,6 +175,16 @@ def judge_likelihood(case) -> Outcome:
     except (refsem.IllPosed, OverflowError) as e:
         out.skipped = 'ill-posed: ' + str(e)[:40]
         return out
+    # new initial values for some parameters, fixed ones included (a pure function of the spec)
+    rs2 = np.random.RandomState(case['shuffle_seed'] + 1)
+    reinit = {n: float(b[2] + rs2.choice([0.25, -0.5, 1.0, 0.125])) for n, b in sorted(betas.items())
+              if b[5] != 0 or rs2.uniform() < 0.5}
+    refs_reinit = None
+    if reinit:
+        try:
+            refs_reinit = reference_values(case, root, betas=dict({n: b[2] for n, b in betas.items()}, **reinit))
+        except (refsem.IllPosed, OverflowError):
+            reinit = {}
     appearance = [n for n in all_betas(root) if betas[n][5] == 0]
     appearanceB = [n for n in all_betas(rootB) if all_betas(rootB)[n][5] == 0]
     has_bound_or_fixed = any(b[3] is not None or b[4] is not None or b[5] != 0 for b in betas.values())
@@ -183,7 +197,8 @@ def judge_likelihood(case) -> Outcome:
     case = dict(case, dict_order={'A': ordA[::-1] if ordA == sorted(ordA) else ordA,
                                   'B': [mapping[n] for n in (ordA[::-1] if ordA == sorted(ordA) else ordA)]})
     case2 = dict(case, rootB=rootB, pointA=pointA, pointB=pointB,
-                 partialB={mapping[n]: v for n, v in case['partial'].items()})
+                 partialB={mapping[n]: v for n, v in case['partial'].items()},
+                 reinitA=reinit, reinitB={mapping[n]: v for n, v in reinit.items()})
     res = isolate.call(_observe_likelihood, case2)
     if not res['ok']:
         out.fail(f'likelihood:raises:{res["exc_type"]}', f'{res["exc_type"]}: {res["exc_msg"][:300]} for '
@@ -234,6 +249,12 @@ def judge_likelihood(case) -> Outcome:
                 if not abs(a - ev.v) <= 1e-9 * (1 + abs(ev.v)):
                     out.fail('partial_dictionary:leaks', f'row {i}: after get_value_c(betas={case["partial"]}) the same formula evaluated '
                                                          f'without values gives {a!r}; at the initial values it is {ev.v!r}' + where)
+                    return out
+        if refs_reinit is not None and 'after_reinit' in obs:
+            for i, (a, ev) in enumerate(zip(obs['after_reinit'], refs_reinit)):
+                if not abs(a - ev.v) <= 1e-9 * (1 + abs(ev.v)):
+                    out.fail('change_init_values:not_used', f'row {i}: after an evaluation with a dictionary and then change_init_values('
+                                                            f'{reinit}) the formula evaluates to {a!r}; with these values it is {ev.v!r}' + where)
                     return out
         for n in free:
             nm = n if tagX == 'A' else mapping[n]
